@@ -1334,6 +1334,33 @@ def _mean(fr, x, *a, **kw):
     return _m_mean(fr, x, *a, **kw)
 
 
+def _argminmax(which):
+    def f(fr, x, dim=None, axis=None, **kw):
+        """argmin / argmax of a vector: an assumed relation - an index of an extremal element, the first one"""
+        ctx = fr.ctx
+        if axis is not None:
+            dim = axis
+        if x.rank != 1 or (dim is not None and norm_dim(dim, 1) != 0):
+            raise Unsupported("arg%s of a tensor of rank %d" % (which, x.rank))
+        s = x.snapshot()
+        n = x.shape[0]
+        ctx.may_raise(n <= 0, 'RuntimeError' if x.lib == 'torch' else 'ValueError')
+        a = O.fresh_int('arg' + which)
+        better = (lambda u, v: u < v) if which == 'min' else (lambda u, v: u > v)
+        ctx.assume(And(0 <= a, a < n))
+        ctx.assume(O.forall_hyp([n], lambda i: Not(better(s(i), s(a)))))
+        ctx.assume(O.forall_hyp([n], lambda i: Implies(i < a, better(s(a), s(i)))))
+        ctx.trusted.add('axiom: arg%s returns the first index of an extremal element' % which)
+        return a
+    return f
+
+
+method('Tn.argmin')(_argminmax('min'))
+method('Tn.argmax')(_argminmax('max'))
+lib('torch.argmin', 'numpy.argmin')(lambda fr, x, *a, **k: _argminmax('min')(fr, as_tn(fr, x), *a, **k))
+lib('torch.argmax', 'numpy.argmax')(lambda fr, x, *a, **k: _argminmax('max')(fr, as_tn(fr, x), *a, **k))
+
+
 def _minmax_method(which):
     def f(fr, x, dim=None, axis=None, keepdim=False, keepdims=False, **kw):
         """max / min: an assumed relation - the result bounds every element and is attained"""
